@@ -180,6 +180,15 @@ def run(plan: dict[str, Any]) -> dict[str, Any]:
             tpci = TDataGroup()
             tp = 0
         ff = CEMIFrameFormat(ext) if ext in (0, 4, 5, 6, 7) else CEMIFrameFormat.STANDARD
+        if rng.random() < 0.25:
+            # a call that fails half way (a key table entry of a wrong length) must leave nothing behind for the next frame
+            try:
+                SecureData.init_from_plain_apdu(
+                    key=rng.randbytes(rng.choice([0, 15, 17, 33])), apdu=apdu, scf=SecurityControlField.from_knx(scf),
+                    sequence_number=seq, address_fields_raw=src.to_bytes(2, "big") + dst.to_bytes(2, "big"),
+                    address_type=CEMIAddressType.GROUP if group else CEMIAddressType.INDIVIDUAL, frame_format=ff, tpci=tpci)
+            except Exception:  # pylint: disable=broad-except
+                R.extra_faults["primitive_call_failed_before_this_frame"] += 1
         try:
             sd = SecureData.init_from_plain_apdu(
                 key=keys[gas[0]], apdu=apdu, scf=SecurityControlField.from_knx(scf), sequence_number=seq,
